@@ -127,7 +127,11 @@ def gen_lexeme(rng: random.Random, cls: str) -> str:
         ind = rng.choice(['', '', '  ', '\t', '    '])
         n = rng.choice([1, 1, 2, 3])
         nl = rng.choice(['\n', '\r\n', '\n'])
-        return nl.join(ind + ';' + rich(rng, [';', ' '], 6).replace('\r', '').replace('\n', '') for _ in range(n))
+        def line_ind():
+            if not ind or rng.random() < 0.6:
+                return ind
+            return rng.choice([' ', '  ', '\t', '      ', ind + ' '])      # continuation lines may be indented differently
+        return nl.join(line_ind() + ';' + rich(rng, [';', ' '], 6).replace('\r', '').replace('\n', '') for _ in range(n))
     if cls == 'InlineComment':
         return ';' + rich(rng, [';', ' '], 8).replace('\r', '').replace('\n', '')
     if cls == 'Date':
